@@ -46,6 +46,8 @@ var c17Sources = []c17Src{
 	{name: "g", tag: "g", extends: "c1", content: "{{extends \"c1\"}}{{#block \"y\"}}GY{{/block}}"},
 	{name: "d", tag: "d.doc", doc: true},
 	{name: "plain", tag: "plain", content: "{{#if c}}yes{{else}}no{{/if}} {{#each L}}{{n}};{{/each}} {{v}}"},
+	// a second definition under the name of a derived template (overrides the other block)
+	{name: "c1", tag: "c1.v2", extends: "base", content: "{{extends \"base\"}}{{#block \"y\"}}C1Y2 {{v}}{{/block}}"},
 }
 
 var c17Names = []string{"base", "c1", "c2", "g", "d", "plain", "missing"}
@@ -61,6 +63,10 @@ func c17BaseDoc() *document.Document {
 	t, _ := d.AddTable(&document.TableConfig{Rows: 1, Cols: 2, Width: 4000})
 	if t != nil {
 		t.SetCellText(0, 0, "cell {{v}}")
+		// a table inside a cell, with its own placeholder
+		if nt, err := t.AddNestedTable(0, 1, &document.TableConfig{Rows: 1, Cols: 1, Width: 1500}); err == nil && nt != nil {
+			nt.SetCellText(0, 0, "nested {{v}}")
+		}
 	}
 	return d
 }
@@ -76,7 +82,8 @@ func c17DataV(variant int) *document.TemplateData {
 	case 2:
 		td.SetImageFromData("pic", jpegBytes(4, 2, 100), nil)
 	}
-	td.SetVariable("v", "V")
+	// every variant has its own values, so that content left behind by a render with other data is recognisable
+	td.SetVariable("v", []string{"V", "V1", "V2"}[variant])
 	td.SetVariable("w", "W")
 	td.SetCondition("c", true)
 	td.SetList("L", []interface{}{map[string]interface{}{"n": "1"}, map[string]interface{}{"n": "2"}})
@@ -112,17 +119,25 @@ func c17DocText(d *document.Document) string {
 			}
 			out = append(out, s)
 		case *document.Table:
-			for _, row := range x.Rows {
-				for _, c := range row.Cells {
-					for _, p := range c.Paragraphs {
-						s := ""
-						for _, r := range p.Runs {
-							s += r.Text.Content
+			var walk func(t *document.Table, pre string)
+			walk = func(t *document.Table, pre string) {
+				for _, row := range t.Rows {
+					for ci := range row.Cells {
+						c := &row.Cells[ci]
+						for _, p := range c.Paragraphs {
+							s := ""
+							for _, r := range p.Runs {
+								s += r.Text.Content
+							}
+							out = append(out, pre+"cell:"+s)
 						}
-						out = append(out, "cell:"+s)
+						for ti := range c.Tables {
+							walk(&c.Tables[ti], pre+"nested-")
+						}
 					}
 				}
 			}
+			walk(x, "")
 		}
 	}
 	return strings.Join(out, "\n")
@@ -504,6 +519,8 @@ func (c c17Call) String() string {
 		return "Load(" + c17Sources[c.Src].tag + ")"
 	case "remove":
 		return "Remove(" + c.Name + ")"
+	case "clear":
+		return "ClearCache()"
 	}
 	return fmt.Sprintf("Render(%s,data%d)", c.Name, c.Variant)
 }
@@ -516,6 +533,7 @@ type c17Scen struct {
 func ld(src int) c17Call     { return c17Call{Kind: "load", Src: src} }
 func rn(name string) c17Call { return c17Call{Kind: "render", Name: name} }
 func rm(name string) c17Call { return c17Call{Kind: "remove", Name: name} }
+func clr() c17Call            { return c17Call{Kind: "clear"} }
 func rv(name string, v int) c17Call {
 	return c17Call{Kind: "render", Name: name, Variant: v}
 }
@@ -532,6 +550,13 @@ var c17Scens = []c17Scen{
 	{Pre: []int{5}, Threads: [][]c17Call{{rn("d")}, {ld(5)}}},
 	{Pre: []int{5}, Threads: [][]c17Call{{rv("d", 1)}, {rv("d", 2)}}},
 	{Pre: []int{6}, Threads: [][]c17Call{{rn("plain")}, {rn("plain")}}},
+	// loading a derived template (which looks its parent up) against calls that change the cache
+	{Pre: []int{0}, Threads: [][]c17Call{{ld(2), rn("c1")}, {ld(3), rn("c2")}}},
+	{Pre: []int{0, 2}, Threads: [][]c17Call{{ld(4), rn("g")}, {rm("c1")}}},
+	{Pre: []int{0}, Threads: [][]c17Call{{ld(2), rn("c1")}, {ld(1)}}},
+	{Pre: []int{0, 2}, Threads: [][]c17Call{{ld(3), rn("c2")}, {clr()}}},
+	{Pre: []int{0, 2}, Threads: [][]c17Call{{rn("c1")}, {ld(7), rn("c1")}}},
+	{Pre: []int{5}, Threads: [][]c17Call{{rv("d", 1)}, {ld(2)}}},
 	// three threads (thorough)
 	{Pre: []int{0}, Threads: [][]c17Call{{rn("base")}, {ld(2)}, {rn("c1")}}},
 	{Pre: []int{0, 2}, Threads: [][]c17Call{{rn("c1")}, {rn("c1")}, {rm("c1")}}},
@@ -555,6 +580,11 @@ func c17DoCall(eng *document.TemplateEngine, c c17Call) string {
 			return "panic: " + p
 		}
 		return "removed"
+	case "clear":
+		if p := guard(func() { eng.ClearCache() }); p != "" {
+			return "panic: " + p
+		}
+		return "cleared"
 	}
 	return c17RenderOn(eng, c.Name, c17DataV(c.Variant), c.Name == "d").String()
 }
@@ -780,13 +810,13 @@ func c17RacePass() {
 }
 
 func runC17(r *rep.Run) {
-	depth, bound := 4, 2
+	depth, bound := 5, 2
 	maxExec := int64(6000)
 	if r.Tier == "thorough" {
-		depth = 6
+		depth = 7
 		maxExec = 100000
 	}
-	r.Rule = "part S: BFS over histories of 17 engine calls (7 loads incl. a reloaded base version, two children overriding the same block differently, a grandchild, a document template and a plain template; Render of every name incl. a missing one; two removals; ClearCache) on one real TemplateEngine, deduplicated on the bookkeeping of which version each name holds and which versions it was bound to at load time; every Render in every reached state is compared with the render, on a fresh engine, after loading exactly the bound chain (differential oracle), rendered twice, and the deep dumps of data, template object and base document are compared before/after; part C: every schedule with <= 2 preemptions of 2-3 goroutines calling Load/Render/Remove on one engine (points at every lock operation and at every statement of every function that touches Template/TemplateBlock/TemplateEngine fields), result tuple must be produced by some sequential order of the same calls; part R: same bodies in a free-running -race build; non-trivial = a load, or a render of a present template / a scenario with a branching point"
+	r.Rule = "part S: BFS over histories of engine calls (8 loads incl. a reloaded base version, two children overriding the same block differently, a second definition under a child's name, a grandchild, a document template (header, footer, logo, image placeholder, table with a nested table, all with placeholders) and a plain template; Render of every name incl. a missing one; two removals; ClearCache) on one real TemplateEngine, deduplicated on the bookkeeping of which version each name holds and which versions it was bound to at load time; every Render in every reached state is compared with the render, on a fresh engine, after loading exactly the bound chain (differential oracle), rendered twice, and the deep dumps of data, template object and base document are compared before/after; part C: every schedule with <= 2 preemptions of 2-3 goroutines calling Load/Render/Remove/ClearCache on one engine (points at every lock operation and at every statement of every function that touches Template/TemplateBlock/TemplateEngine fields), result tuple must be produced by some sequential order of the same calls; part R: same bodies in a free-running -race build; non-trivial = a load, or a render of a present template / a scenario with a branching point"
 	r.Bounds["depth"] = depth
 	r.Bounds["ops"] = len(c17Ops)
 	r.Bounds["preemption_bound"] = map[string]int{"statement-level points": 1, "lock operations and function entries": 2}
